@@ -6,6 +6,20 @@ import mpmath
 
 def run(rep, rng, tier, replay=None):
     extra = [replay["chosen"]["case"]] if replay and replay.get("chosen", {}).get("case") else []
+    # the far tail and the ends of the angle: radial coordinates down to the smallest subnormal, angles at 0+, quarter turns, 1-
+    A_SPECIAL = [1e-20, 1e-300, 2.2250738585072014e-308, 5e-324, 3e-17, 1e-16, 2.220446049250313e-16, 2.3e-16, 1e-10, 1 - 2.0**-53, 0.5]
+    B_SPECIAL = [5e-324, 1e-300, 2.0**-53, 0.25, 0.5, 0.75, 1 - 2.0**-53]
+    for i in range(24 if tier == "quick" else 150):
+        r = rng.fork()
+        c = SC.gen_sample_case(r, emax=6)
+        off = 2 * len(c["edges"]) - 1
+        for kk in range(off, len(c["point"])):
+            if (kk - off) % 2 == 0:
+                if r.chance(0.7):
+                    c["point"][kk] = f2b(r.choice(A_SPECIAL))
+            elif r.chance(0.4):
+                c["point"][kk] = f2b(r.choice(B_SPECIAL))
+        extra.append(c)
     got = SC.standard_run(rep, rng, tier, "C13", ["q_vectors"], 1e-13, n_quick=80, n_thorough=600,
                           nontrivial=lambda c: c["L"] * c["D"] >= 3, extra_cases=extra, emax=7 if tier == "quick" else 8)
     mpmath.mp.dps = 40
@@ -48,6 +62,6 @@ def run(rep, rng, tier, replay=None):
         if bad:
             rep.violation("property", "; ".join(bad[:3]), case=c, failing_input=True, what="Gaussian component differs from the Box-Muller definition")
         rep.sample(dict(D=D, L=L, offset=off, q_vectors=q[:4], coords=pt[off:off + 4]))
-    rep.cov["rule"] = ("accepted connected graphs, D=1..6, L=1..4 (all D*L parities), points uniform in the open cube; q_vectors vs the whole-pipeline model (bit-exact rate reported) "
+    rep.cov["rule"] = ("accepted connected graphs, D=1..6, L=1..4 (all D*L parities), points uniform in the open cube plus points whose radial coordinates sit in the far tail (1e-10 ... 5e-324, around 2^-52, 1-2^-53) and whose angles sit at 0+, quarter turns and 1-; q_vectors vs the whole-pipeline model (bit-exact rate reported) "
                        "and vs the model's sample_q_vectors stage alone; each component vs the definition in 40-digit arithmetic (absolute tolerance a few ulp of the radius); the "
                        "recorded ln/cos/sin calls must be exactly one per pair on the designated coordinates. non-trivial = D*L>=3")
